@@ -237,7 +237,7 @@ class SymArray:
                 vf = val.val
                 srt = self.sort
                 self._elem = lambda i: z3.If(mask(i), _coerce_sort(vf(i), srt), old(i))
-            elif is_sym(val) or sym._is_num(val):
+            elif is_sym(val) or sym._is_num(val) or isinstance(val, (bool, np.bool_)):
                 vt = _term_of(val, self.sort)
                 self._elem = lambda i: z3.If(mask(i), vt, old(i))
             else:
@@ -1248,6 +1248,14 @@ class SymRows:
         raise EngineLimit("SymRows index")
 
 
+def _m_append(arr, values, axis=None):
+    """np.append(a, v) with axis=None on fixed-shape object arrays / scalar proxies: ravel both, concatenate"""
+    if axis is not None or not isinstance(arr, np.ndarray):
+        raise EngineLimit("np.append on a proxy array / along an axis")
+    v = values if isinstance(values, np.ndarray) else ObjArr.of([values]) if not isinstance(values, (list, tuple)) else ObjArr.of(list(values))
+    return ObjArr.of(list(np.asarray(arr, dtype=object).ravel()) + list(np.asarray(v, dtype=object).ravel()))
+
+
 def FUNCTION_MODELS():
     """numpy functions reached through the __array_function__ protocol of the proxies."""
     from .shims import _isclose, _allclose
@@ -1263,6 +1271,7 @@ def FUNCTION_MODELS():
         np.nonzero: lambda a: _m_where(a),
         np.flatnonzero: lambda a: _m_where(a)[0],
         np.concatenate: _m_concatenate,
+        np.append: _m_append,
         np.copy: lambda a, *x, **k: a.copy(),
         np.argsort: _m_argsort,
         np.isin: _m_isin,
